@@ -413,7 +413,8 @@ def streams(rng, tier, seed):
     bind += [cb.gen_keyset(rng, nb + i, rng.choice([4, 8, 16]) if quick else rng.choice([6, 14, 30])) for i in range(nk)]
     bind += [cb.gen_bind_malformed(rng, nb + nk + i) for i in range(12 if quick else 120)]
     bind += cb.exhaustive_keyset(len(bind) + 100)
-    for kind in (cb.KINDS if not quick else [rng.choice(cb.KINDS[1:])]):
+    ex_kinds = ['ts', 'tss', 'tsd']        # the exhaustive bind histories exist for the flat shapes (tsdn: key-set streams)
+    for kind in (ex_kinds if not quick else [rng.choice(ex_kinds[1:])]):
         bind += cb.exhaustive_bind(kind, len(bind) + 100)
     return [ec.engine_stream('engine-probe', progs),
             Stream('track', [os.path.join(BUILD, 'hgv_track')], model_cmd('C04'), track),
